@@ -84,7 +84,7 @@ def run(ctx):
     rb = ctx.rule('R24.b', 'over-limit inputs rejected; all other emitted units pass the C front end', 60)
     rc = ctx.rule('R24.c', 'compiler-side limit check and exit-status plumbing', 8)
     rd = ctx.rule('R24.d', 'no clock / random / pid / pointer value reaches the generated code', 1)
-    progs = g.programs(ctx.tier)
+    progs = g.programs(ctx.tier, extra_dir='c24')      # corpus/c24: inputs only this property looks at
     res = g.scan(progs, q_C24, tolerate_parse_errors=True)
     gc.apply_records(ctx, {'R24.a': ra}, res)
     for p, r in res:
